@@ -79,6 +79,18 @@ func newHarness(ownMID int) *harness {
 				w.Conn().ReleaseMessage(r)
 			}
 			switch b {
+			case "setmessage":
+				// the application builds the response itself, under a context of its own with a short deadline (a request
+				// scoped context), and hands it over: how long the reply is remembered is a matter of the exchange lifetime,
+				// not of whatever context that message was created with
+				mctx, mcancel := context.WithTimeout(context.Background(), 25*time.Millisecond)
+				defer mcancel()
+				m := w.Conn().AcquireMessage(mctx)
+				m.SetCode(codes.Content)
+				m.SetToken(r.Token())
+				m.SetContentFormat(message.TextPlain)
+				m.SetBody(bytes.NewReader(append([]byte("sm:"), body...)))
+				w.SetMessage(m)
 			case "piggy":
 				_ = w.SetResponse(codes.Content, message.TextPlain, bytes.NewReader(append([]byte("re:"), body...)), message.Option{ID: message.ETag, Value: []byte{1, 2, 3}})
 			case "none":
@@ -186,7 +198,7 @@ func runCase(rec *vr.Rec, c dcase, rnd *rand.Rand) {
 	h.behav[mid] = c.Behav
 	dg := request(typ, mid, tok, "body")
 	behav := strings.TrimSuffix(c.Behav, "-owned")
-	expectReply := con || behav == "piggy" || behav == "nested"
+	expectReply := con || behav == "piggy" || behav == "nested" || behav == "setmessage"
 	wantReplies := func(n int) bool {
 		return sim.WaitFor(20*time.Second, func() bool { return len(h.repliesFor(con, mid, tok)) >= n })
 	}
@@ -195,6 +207,9 @@ func runCase(rec *vr.Rec, c dcase, rnd *rand.Rand) {
 	switch c.Inject {
 	case "sequential":
 		for i := 0; i < c.Copies; i++ {
+			if behav == "setmessage" && i == c.Copies-1 {
+				time.Sleep(60 * time.Millisecond) // the last copy arrives well after the deadline of the context the reply was built with
+			}
 			_ = h.cc.Process(nil, dg)
 			for o := 0; o < c.Others; o++ {
 				omid := mid + 1 + uint16(i*c.Others+o)
@@ -414,7 +429,7 @@ func responseDuplicates(rec *vr.Rec, n int) {
 }
 
 func TestRun(t *testing.T) {
-	rec := vr.New("C05", "cases = request type {CON, NON} x handler behaviour {piggybacked response, no response, separate response, response after a nested blocking request, piggybacked / no response from a handler that took the request over and released it before returning} x injection {sequential copies, copies arriving while the first handler still runs, 2..8 goroutines at a barrier} x copies 2..8 x message IDs {0, 1, 65535, around the connection's own next outgoing IDs, PRNG} x interleaved other IDs x lifetime boundary {none, sweep at t0+247s-1s, sweep at t0+247s+1s}; plus duplicated separate responses from the peer. Distinct = distinct case tuples.")
+	rec := vr.New("C05", "cases = request type {CON, NON} x handler behaviour {piggybacked response, no response, separate response, response after a nested blocking request, piggybacked / no response from a handler that took the request over and released it before returning, response handed over with SetMessage (built under a context with a short deadline; the last copy arrives after it)} x injection {sequential copies, copies arriving while the first handler still runs, 2..8 goroutines at a barrier} x copies 2..8 x message IDs {0, 1, 65535, around the connection's own next outgoing IDs, PRNG} x interleaved other IDs x lifetime boundary {none, sweep at t0+247s-1s, sweep at t0+247s+1s}; plus duplicated separate responses from the peer. Distinct = distinct case tuples.")
 	defer rec.Flush(true)
 	seed := vr.Seed()
 	rnd := rand.New(rand.NewSource(seed))
@@ -422,7 +437,7 @@ func TestRun(t *testing.T) {
 	own := 30000
 	mids := []int{0, 1, 65535, own, own + 1, own + 2, own - 1}
 	for _, typ := range []string{"CON", "NON"} {
-		for _, b := range []string{"piggy", "none", "separate", "nested", "piggy-owned", "none-owned"} {
+		for _, b := range []string{"piggy", "none", "separate", "nested", "piggy-owned", "none-owned", "setmessage"} {
 			for _, inj := range []string{"sequential", "during-handler", "barrier"} {
 				if inj == "during-handler" && b != "nested" {
 					continue
@@ -430,7 +445,14 @@ func TestRun(t *testing.T) {
 				if inj == "barrier" && b == "nested" {
 					continue
 				}
-				for rep := 0; rep < vr.Scale(200, 3000); rep++ {
+				nrep := vr.Scale(200, 3000)
+				if b == "setmessage" {
+					if inj != "sequential" {
+						continue
+					}
+					nrep = vr.Scale(16, 200) // each costs 60 ms of real time
+				}
+				for rep := 0; rep < nrep; rep++ {
 					c := dcase{Type: typ, Behav: b, Inject: inj, Copies: 2 + rnd.Intn(7), OwnMID: own, Others: rnd.Intn(3)}
 					if rnd.Intn(2) == 0 {
 						c.MID = mids[rnd.Intn(len(mids))]
